@@ -526,9 +526,12 @@ def check_property(ctx, case, impl):
     # 1. fixed / deselected untouched
     for nme, rv in ref.items():
         tol = tol_var if nme == "var" else 0
+        bad = ulps(cur[nme], rv) > tol
         if nme in ("var", "nugget") and sill is not None:
-            tol = max(tol, 4)       # sill - x, then x + (sill - x): documented recalculation, a few roundings
-        if ulps(cur[nme], rv) > tol:
+            # documented recalculation x = sill - y: the sill (var + nugget, var through var_factor) and y carry a few
+            # roundings each, so the ABSOLUTE error is a few ulp of the sill (many ulp of a small nugget)
+            bad = abs(cur[nme] - rv) > 8 * 2.220446049250313e-16 * max(abs(sill), abs(rv))
+        if bad:
             out.append(("untouched:%s" % ("var" if nme == "var" else "nugget" if nme == "nugget" else "other"),
                         "parameter %s is not fitted (%r) but is %r after the call, expected %r" % (nme, sel.get(nme), cur[nme], rv)))
     anis_kw = case["kwargs"].get("anis", True)
